@@ -203,7 +203,7 @@ def gen_cases(rng, tier):
             c = dict(kind=kind, d=rng.choice([1, 2]), m=1, keys=keys, batched=batched, B=2, obs=obs, het=het,
                      malformed=None,
                      terms={"dyn": True, "ic": base != "statio", "boundary": base != "ode" and rng.random() < 0.6,
-                            "norm": base == "statio" and rng.random() < 0.5})
+                            "norm": base != "ode" and rng.random() < 0.5})
             if kind.startswith("sys_"):
                 c["E"], c["U"] = rng.choice([1, 2]), rng.choice([1, 2])
                 es, us = c13._names(c)
